@@ -9,7 +9,7 @@
 (*             per scenario, one file per chunk                            *)
 (*   JUDGE_OUT: directory for verdict files; JUDGE_CHUNKS: parallelism     *)
 (***************************************************************************)
-EXTENDS TokenConsumers, Analysis, Json, IOUtils
+EXTENDS TokenConsumers, Analysis, AlwaysSucceeds, Json, IOUtils
 
 \* the joined records are split by the orchestrator into one file per chunk (JUDGE_IN_<c>.ndjson), so that
 \* every TLC worker deserialises only the records it judges
@@ -258,12 +258,26 @@ JudgeDiag(sc, u) ==
   If(u.gen.exit = 0 /\ ~u.gen.hasout, GenMis(u, "C18", "exit0-no-output", TRUE, FALSE)) \o
   If(u.gen.exit = 0 /\ u.gen.hasout /\ ~u.gen.compiles /\ LeftRec(G) = {} , GenMis(u, "C08", "compiles", TRUE, u.gen.msg))
 
+\* conformance of the emitted call sites with the transcription of CheckAlwaysSucceeds (AlwaysSucceeds.tla):
+\* judged where the rule tree the test sees is the grammar as written (no -switch rewrite); with -inline the
+\* calls of rules referenced once disappear, so only inclusion is compared there.  A difference is
+\* conformance drift of the transcription, not a violation (a more precise test breaks no property).
+CasJudged(sc, u) == sc.family # "diag" /\ u.gen.hasout /\ u.opt \in {"", "i", "n", "in"}
+CasDrift(sc, B, u) ==
+  /\ CasJudged(sc, u)
+  /\ LET first == sc.grammar.rules[1].name
+         eu == Unguarded(B, first) eg == Guarded(B, first)
+         \* (an action is emitted as a call of an implicit rule ActionN whose verdict is never tested)
+         ou == {x \in ToSet(u.gen.unguarded) : ~IsActName(x)} og == ToSet(u.gen.guarded)
+     IN IF u.opt \in {"", "n"} THEN ou # eu \/ og # eg ELSE ~(ou \subseteq eu /\ og \subseteq eg)
+
 RECURSIVE JudgeUnits(_, _, _, _, _)
 JudgeUnits(sc, B, units, du, k) ==
   IF k > Len(units) THEN <<>>
   ELSE LET u == units[k] IN
        (IF sc.family = "diag" THEN JudgeDiag(sc, u) ELSE JudgeGen(sc, u) \o JudgeRuns(sc, B, units, du, u, 1)) \o
        <<[kind |-> "stat", opt |-> u.opt, runs |-> Len(u.runs), hasdiag |-> (sc.family = "diag" /\ HasDiagnostics(sc.grammar)), compiled |-> u.gen.compiles, nswitch |-> u.gen.nswitch, nnil |-> u.gen.nnil,
+          casjudged |-> CasJudged(sc, u), casdrift |-> CasDrift(sc, B, u), casunguarded |-> Len(u.gen.unguarded),
           memooff |-> Cardinality({j \in 1..Len(u.runs) : ~sc.plan[u.runs[j].c].memo}),
           hist |-> Cardinality({j \in 1..Len(u.runs) : u.runs[j].h > 0}), multi |-> Cardinality({j \in 1..Len(u.runs) : u.runs[j].h < 0}),
           accepted |-> Cardinality({j \in 1..Len(u.runs) : u.runs[j].ok}),
